@@ -53,6 +53,7 @@ func runC06(c *Ctx) {
 	c.c06CopyToDirectory()
 	c.c06MoveFolderEntries()
 	c.c06MissingSourceFirst()
+	c.c06RelativeContainment()
 }
 
 // c06Overlap: "a copy never changes its source, also when source and destination overlap" / "a call terminates".
@@ -1290,5 +1291,43 @@ func (c *Ctx) c06MissingSourceFirst() {
 		if n == 0 {
 			c.info("Z13", fname(f)+"/same-path", c.pos(f.Pos()), "no successful return justified by the equality of the two paths")
 		}
+	}
+}
+
+// c06RelativeContainment (Z14): whether one path lies inside another is decided either by comparing the cleaned paths
+// with a separator appended (the form the move guard uses) or through filepath.Rel — and then "outside" means that the
+// relative path IS ".." or STARTS WITH ".." followed by a separator. A bare HasPrefix(rel, "..") also matches names that
+// merely begin with two dots (`..b`, `...`): a destination inside the source is taken to be outside it, the guard lets the
+// move through and the directory is moved into itself.
+func (c *Ctx) c06RelativeContainment() {
+	c.rule("Z14", "no containment decision of the filesystem package rests on strings.HasPrefix(rel, \"..\") with rel obtained from filepath.Rel: names that begin with two dots are legal", 0)
+	n := 0
+	for _, f := range c.srcFuncs(fsPkgRel) {
+		allInstrs(f, func(in ssa.Instruction) {
+			cl, ok := in.(*ssa.Call)
+			if !ok || calleeFull(&cl.Call) != "strings.HasPrefix" || len(cl.Call.Args) != 2 {
+				return
+			}
+			pfx, isC := constString(cl.Call.Args[1])
+			if !isC || pfx != ".." {
+				return
+			}
+			fromRel := false
+			for _, l := range sources(cl.Call.Args[0], deriveOpts{through: func(nm string) bool { return strings.HasPrefix(nm, "path/filepath.") && nm != "path/filepath.Rel" }}) {
+				if ex, ok := l.(*ssa.Extract); ok {
+					if rc, ok := ex.Tuple.(*ssa.Call); ok && calleeFull(&rc.Call) == "path/filepath.Rel" {
+						fromRel = true
+					}
+				}
+			}
+			if !fromRel {
+				return
+			}
+			n++
+			c.violate("Z14", fname(outermost(f))+"/relative-path-starts-with-two-dots", c.ipos(cl), "a path is taken to lie outside another because its relative path starts with \"..\": so does the relative path of an entry named `..b` or `...` inside it — for the guard of Move, a directory moved into such a sub-directory of itself is no longer refused: the move recurses until the path is too long (OS) or the source tree is lost (in memory)")
+		})
+	}
+	if n == 0 {
+		c.info("Z14", fsPkgRel+"/no-bare-two-dots-prefix-test", "-", "no HasPrefix(rel, \"..\") on a filepath.Rel result")
 	}
 }
